@@ -42,6 +42,8 @@ def show(v):
         return "&%s.%s" % (v[1], v[2])
     if v[0] == "ext":
         return "a caller-owned object (%s)" % v[1]
+    if v[0] == "ext_prior":
+        return "the caller-owned object the destination referenced before the assignment (%s)" % v[1]
     if v[0] == "uptr":
         return "unique_ptr -> %s" % (v[1],)
     return str(v)
@@ -124,7 +126,9 @@ def run(chk):
             for cfg in cfgs:
                 for ows in (True, False):
                     for tws in ((False,) if is_ctor else (True, False)):
-                        scen.append({"ptr": cfg, "other_ws": ows, "this_ws": tws, "self": False})
+                        # an assignment's destination may have been pointed at a caller's map (another one) beforehand
+                        for tcfg in (cfgs[:1] if is_ctor else cfgs):
+                            scen.append({"ptr": cfg, "this_ptr": tcfg, "other_ws": ows, "this_ws": tws, "self": False})
                     if not is_ctor:
                         scen.append({"ptr": cfg, "other_ws": ows, "this_ws": ows, "self": True})
             results = []
@@ -146,7 +150,7 @@ def run(chk):
 
             def describe(sc):
                 return "source %s, source %s a workspace%s%s" % (", ".join("%s -> %s" % (k, "its own default" if v == "own" else "a caller's map") for k, v in sorted(sc["ptr"].items())),
-                                                              "owns" if sc["other_ws"] else "has no", "" if is_ctor else (", destination %s one" % ("owns" if sc["this_ws"] else "has no")),
+                                                              "owns" if sc["other_ws"] else "has no", "" if is_ctor else (", destination %s one%s" % ("owns" if sc["this_ws"] else "has no", "".join(", destination %s -> another caller's map" % k for k, v in sorted(sc.get("this_ptr", {}).items()) if v == "ext"))),
                                                               ", self-assignment" if sc["self"] else "")
             for fld in fields:
                 name = fld["name"]
